@@ -579,7 +579,7 @@ def spec_monitor(ctx, mode, sig_prefix, what):
 
 # ----------------------------------------------------------------------------- monitors
 
-def monitor(ctx, name, timeout=1800, args=()):
+def monitor(ctx, name, timeout=1800, args=(), accept=()):
     """direct property monitor on the real code (harness monitor <name> <seed> <tier>)"""
     try:
         rc, out = sh([HARNESS, "monitor", name, str(ctx.seed), ctx.tier] + list(args), env=GOENV, timeout=timeout)
@@ -603,7 +603,7 @@ def monitor(ctx, name, timeout=1800, args=()):
     if rep.get("stats"):
         ctx.extra.setdefault("monitor_stats", {})[name] = rep["stats"]
     for v in rep.get("violations") or []:
-        if v.get("property") and v["property"] != ctx.prop:
+        if v.get("property") and v["property"] != ctx.prop and v["property"] not in accept:
             continue   # judged by that property's own check
         ctx.violation(v["sig"], v["what"], dict(kind="monitor", monitor=name, seed=ctx.seed, detail=v.get("replay")), concrete=True)
     return rep
